@@ -262,3 +262,35 @@ class translation_by_whole_pixels:
         'mask_values_unchanged': lambda kind, result, i, j: kind == 'polygon' or (
             (not in_grid(result['m1'], i, j)) or result['m1'].data[j, i] == result['m2'].data[j, i]),
     }
+
+
+REGPOLY = 'regions/shapes/polygon.py::RegularPolygonPixelRegion'
+
+
+@contract(REGPOLY + '.rotate', props=['C15', 'C13'])
+class regular_polygon_rotate:
+    """the centre moves on the circle about the rotation centre by the rotation angle alone; the polygon's own angle grows by it"""
+    cases = {f'{n}-{u}': {'n': n, 'unit': u} for n in (3, 4, 6) for u in ('deg', 'rad')}
+
+    def setup(B, n=3, unit='deg'):
+        rad = B.real('r.radius')
+        B.assume(rad > 0)
+        r = B.construct(REGPOLY, 'r', pix(B, 'r.center'), n, rad, angle=B.quantity('r.angle', 'deg'),
+                        meta=mk_meta(B, 'r.meta', 'bool'), visual=mk_visual(B, 'r.visual'))
+        return dict(self=r, center=pix(B, 'c'), angle=B.quantity('theta', unit))
+    pre = lambda self: self.radius > 0
+    forall = {'k': 'int'}
+    post = {
+        'same_class': lambda self, result: result.__class__ is self.__class__,
+        'center_rotated': lambda self, center, angle, result: rotated_center(self, center, angle, result),
+        'own_angle_grows_by_the_rotation': lambda self, angle, result: result.angle.to_value('rad') == self.angle.to_value('rad') + angle.to_value('rad'),
+        'other_parameters_kept': lambda self, result: result.radius == self.radius and result.nvertices == self.nvertices,
+        'vertices_rotated': lambda self, center, angle, result, k: (
+            (not (0 <= k and k < self.nvertices)) or
+            result.vertices.x[k] == rot(center.x, center.y, cs(angle)[0], cs(angle)[1], self.vertices.x[k], self.vertices.y[k])[0]
+            and result.vertices.y[k] == rot(center.x, center.y, cs(angle)[0], cs(angle)[1], self.vertices.x[k], self.vertices.y[k])[1]),
+        'meta_kept_fresh': lambda self, result: meta_equal_fresh(self, result),
+        'rotate_back_restores': lambda self, center, angle, result:
+            result.rotate(center, -angle).center.x == self.center.x and result.rotate(center, -angle).center.y == self.center.y
+            and result.rotate(center, -angle).angle.to_value('rad') == self.angle.to_value('rad'),
+    }
